@@ -1066,6 +1066,27 @@ func deepCallTerms(c *Ctx, b *ana.Builder) []*ana.Term {
 	return out
 }
 
+// calleeMatching finds in t the call term that itself has the shape pat and
+// returns its callee; when t only has that shape after looking through a
+// helper, the helper's result term is searched instead (three levels).
+func (c *Ctx) calleeMatching(pat string, t *ana.Term) *ssa.Function {
+	for depth := 0; depth < 3 && t != nil; depth++ {
+		saved := ana.DefaultProg
+		ana.DefaultProg = nil
+		w, _ := ana.Find(pat, t)
+		ana.DefaultProg = saved
+		if w != nil {
+			return calleeOf(w)
+		}
+		x, ch := ana.ExpandCalls(c.P, t)
+		if !ch {
+			return nil
+		}
+		t = x
+	}
+	return nil
+}
+
 // deepEdges lists the condition edges of b's function and, with parameters
 // bound to the arguments, of the repository helpers it calls (two levels): a
 // run of checks moved into a helper tests the same literals.
